@@ -125,6 +125,9 @@ pub enum Arg {
     B(bool),
     F(f32),
     S(String),
+    /// the value the host reads from this global at the moment of the call (the only way a
+    /// host gets hold of a list value)
+    G(String),
 }
 
 impl Arg {
@@ -134,6 +137,7 @@ impl Arg {
             Arg::B(b) => ValueType::Bool(*b),
             Arg::F(f) => ValueType::Float(*f),
             Arg::S(s) => ValueType::new::<&str>(s.as_str()),
+            Arg::G(_) => ValueType::Int(0),
         }
     }
     pub fn to_json(&self) -> J {
@@ -142,6 +146,7 @@ impl Arg {
             Arg::B(b) => json!({"b": b}),
             Arg::F(f) => json!({"f": f}),
             Arg::S(s) => json!({"s": s}),
+            Arg::G(g) => json!({"g": g}),
         }
     }
     pub fn from_json(j: &J) -> Option<Arg> {
@@ -157,6 +162,9 @@ impl Arg {
         }
         if let Some(v) = o.get("s") {
             return Some(Arg::S(v.as_str()?.to_string()));
+        }
+        if let Some(v) = o.get("g") {
+            return Some(Arg::G(v.as_str()?.to_string()));
         }
         None
     }
@@ -745,6 +753,14 @@ impl Host {
     }
 
     /// Apply one host operation; everything observable is appended to `self.trace`.
+    /// the value a host passes for an argument; `Arg::G` reads the named global now
+    pub fn arg_value(&self, a: &Arg) -> ValueType {
+        match a {
+            Arg::G(name) => self.story.get_variable(name).unwrap_or(ValueType::Int(0)),
+            _ => a.to_value(),
+        }
+    }
+
     pub fn apply(&mut self, op: &HostOp) {
         match op {
             HostOp::Continue => {
@@ -794,7 +810,7 @@ impl Host {
                 }
             }
             HostOp::ChoosePath { path, reset, args } => {
-                let a: Vec<ValueType> = args.iter().map(|a| a.to_value()).collect();
+                let a: Vec<ValueType> = args.iter().map(|a| self.arg_value(a)).collect();
                 let r = self.story.choose_path_string(
                     path,
                     *reset,
@@ -859,7 +875,8 @@ impl Host {
                 }
             }
             HostOp::SetVar(n, a) => {
-                let r = self.story.set_variable(n, &a.to_value());
+                let v = self.arg_value(a);
+                let r = self.story.set_variable(n, &v);
                 self.drain_log();
                 match r {
                     Ok(()) => self.trace.push(Obs::Ret(format!("set {n}"))),
@@ -885,7 +902,7 @@ impl Host {
                 }
             }
             HostOp::Eval { func, args } => {
-                let a: Vec<ValueType> = args.iter().map(|a| a.to_value()).collect();
+                let a: Vec<ValueType> = args.iter().map(|a| self.arg_value(a)).collect();
                 let mut out = String::new();
                 let r = self.story.evaluate_function(
                     func,
